@@ -193,33 +193,37 @@ async def continuous_watch(
             since=resource_version,
             operator_pause_waiter=operator_pause_waiter,
         )
-        async for raw_input in stream:
-            raw_type = raw_input['type']
-            raw_object = raw_input['object']
+        # Close the stream explicitly when leaving it midway (e.g. on "410 Gone" or on errors).
+        # Otherwise, its inactivity timeout stays armed until the generator is garbage-collected,
+        # and cancels this very task (with a new stream in it) long after the old stream is gone.
+        async with contextlib.aclosing(stream):
+            async for raw_input in stream:
+                raw_type = raw_input['type']
+                raw_object = raw_input['object']
 
-            # "410 Gone" is for the "resource version too old" error, we must restart watching.
-            # The resource versions are lost by k8s after a few minutes (5 as per the official doc).
-            # The error occurs when there is nothing happening for a few minutes. This is normal.
-            if raw_type == 'ERROR' and cast(bodies.RawError, raw_object)['code'] == 410:
-                where = f'in {namespace!r}' if namespace is not None else 'cluster-wide'
-                logger.debug(f"Restarting the watch-stream for {resource} {where}.")
-                return  # out of the regular stream, to the infinite stream.
+                # "410 Gone" is for the "resource version too old" error, we must restart watching.
+                # The resource versions are lost by k8s after a few minutes (5 as per the docs).
+                # The error occurs when there is nothing happening for a few minutes. It is normal.
+                if raw_type == 'ERROR' and cast(bodies.RawError, raw_object)['code'] == 410:
+                    where = f'in {namespace!r}' if namespace is not None else 'cluster-wide'
+                    logger.debug(f"Restarting the watch-stream for {resource} {where}.")
+                    return  # out of the regular stream, to the infinite stream.
 
-            # Other watch errors should be fatal for the operator.
-            if raw_type == 'ERROR':
-                raise WatchingError(f"Error in the watch-stream: {raw_object}")
+                # Other watch errors should be fatal for the operator.
+                if raw_type == 'ERROR':
+                    raise WatchingError(f"Error in the watch-stream: {raw_object}")
 
-            # Ensure that the event is something we understand and can handle.
-            if raw_type not in ['ADDED', 'MODIFIED', 'DELETED', 'BOOKMARK']:
-                logger.warning(f"Ignoring an unsupported event type: {raw_input!r}")
-                continue
+                # Ensure that the event is something we understand and can handle.
+                if raw_type not in ['ADDED', 'MODIFIED', 'DELETED', 'BOOKMARK']:
+                    logger.warning(f"Ignoring an unsupported event type: {raw_input!r}")
+                    continue
 
-            # Keep the latest seen resource version for continuation of the stream on disconnects.
-            body = cast(bodies.RawBody, raw_object)
-            resource_version = body.get('metadata', {}).get('resourceVersion', resource_version)
+                # Keep the latest seen resource version to continue the stream on disconnects.
+                body = cast(bodies.RawBody, raw_object)
+                resource_version = body.get('metadata', {}).get('resourceVersion', resource_version)
 
-            # Yield normal events to the consumer. Errors are already filtered out.
-            yield cast(bodies.RawEvent, raw_input)
+                # Yield normal events to the consumer. Errors are already filtered out.
+                yield cast(bodies.RawEvent, raw_input)
 
 
 async def watch_objs(
